@@ -72,20 +72,18 @@ Fixpoint find_ell (l : list item) : nat :=
 Definition full_slice : item := ISlice None None None.
 
 (* the loop "for (i, idx), n in zip(enumerate(indices), shape)" *)
-(* [strict] is a variant switch (DESIGN 2.5) for finding C14/getitem-int-below-minus-n:
-   the code at hand only tests "idx >= n" after wrapping a negative index once
-   (strict = false); the repaired code also rejects idx < 0 (strict = true).  The harness
-   measures which variant /repo exhibits and runs the correspondence against it. *)
-Fixpoint norm_ints (strict int_to_slice : bool) (l : list item) (shape : list Z) : res (list item) :=
+(* a negative index is wrapped once; "idx >= n or idx < 0" -> IndexError
+   (the second test was added by /repo commit 2a3c64a, former finding C14/getitem-int-below-minus-n) *)
+Fixpoint norm_ints (int_to_slice : bool) (l : list item) (shape : list Z) : res (list item) :=
   match l, shape with
   | it :: l', n :: shape' =>
       match it with
       | IInt i =>
           let i' := if (i <? 0)%Z then (i + n)%Z else i in
-          if (n <=? i')%Z || (strict && (i' <? 0)%Z) then IndexErr
-          else bind (norm_ints strict int_to_slice l' shape')
+          if (n <=? i')%Z || (i' <? 0)%Z then IndexErr
+          else bind (norm_ints int_to_slice l' shape')
                     (fun r => Ok ((if int_to_slice then ISlice (Some i') (Some (i' + 1)%Z) None else IInt i) :: r))
-      | _ => bind (norm_ints strict int_to_slice l' shape') (fun r => Ok (it :: r))
+      | _ => bind (norm_ints int_to_slice l' shape') (fun r => Ok (it :: r))
       end
   | _, _ => Ok l
   end.
@@ -102,7 +100,7 @@ Fixpoint empty_slice_check (l : list item) (shape : list Z) : bool :=
   | _, _ => false
   end.
 
-Definition norm_index_list (strict : bool) (l0 : list item) (shape : list Z) (int_to_slice : bool) : res (list item) :=
+Definition norm_index_list (l0 : list item) (shape : list Z) (int_to_slice : bool) : res (list item) :=
   let ndim := length shape in
   let l1 := if (length l0 <? ndim)%nat && negb (existsb is_ell l0) then l0 ++ [IEll] else l0 in
   bind (if existsb is_ell l1 then
@@ -111,7 +109,7 @@ Definition norm_index_list (strict : bool) (l0 : list item) (shape : list Z) (in
                let extra := (Z.of_nat ndim - Z.of_nat (length l1) + 1)%Z in
                Ok (firstn e l1 ++ repeat full_slice (Z.to_nat extra) ++ skipn (S e) l1)
         else Ok l1)
-  (fun l2 => bind (norm_ints strict int_to_slice l2 shape)
+  (fun l2 => bind (norm_ints int_to_slice l2 shape)
   (fun l3 => if empty_slice_check l3 shape then ValueErr
              else if existsb is_new l3 then ValueErr
              else if (ndim <? length l3)%nat then IndexErr
@@ -123,8 +121,8 @@ Definition items_of (e : iexpr) : list item :=
   | ETuple l => l
   | EList _ => []
   end.
-Definition norm_index (strict : bool) (e : iexpr) (shape : list Z) (int_to_slice : bool) : res (list item) :=
-  norm_index_list strict (items_of e) shape int_to_slice.
+Definition norm_index (e : iexpr) (shape : list Z) (int_to_slice : bool) : res (list item) :=
+  norm_index_list (items_of e) shape int_to_slice.
 
 (* ------------------------------------------------------------------ *)
 Section Model.
@@ -288,11 +286,11 @@ Fixpoint mapM3 {A B C D} (f : A -> B -> C -> res D) (l : list A) (m : list B) (k
   | a :: l', b :: m', c :: k' => bind (f a b c) (fun d => bind (mapM3 f l' m' k') (fun ds => Ok (d :: ds)))
   | _, _, _ => Ok []
   end.
-Definition getitem_expr (strict : bool) (p : list (axis T)) (e : iexpr) : res (list (axis T)) :=
-  bind (norm_index strict e (shape_of p) true) (fun idx =>
+Definition getitem_expr (p : list (axis T)) (e : iexpr) : res (list (axis T)) :=
+  bind (norm_index e (shape_of p) true) (fun idx =>
   bind (mapM2 sub_limits p idx) (fun lims =>
   (* self.grid[indices] normalizes once more (now all slices), int_to_slice=False *)
-  bind (norm_index strict (ETuple idx) (shape_of p) false) (fun idx' =>
+  bind (norm_index (ETuple idx) (shape_of p) false) (fun idx' =>
   bind (mapM3 sub_axis p idx' lims) mk_part))).
 
 (* index list: slice along the first axis by NumPy integer-array indexing *)
@@ -308,8 +306,8 @@ Definition getitem_list (p : list (axis T)) (l : list Z) : res (list (axis T)) :
         if (hi' <? lo') then ValueErr
         else mk_part (mkAxis lo' hi' (take_idx (a_cs ax) idxs) :: p'))
   end.
-Definition getitem (strict : bool) (p : list (axis T)) (e : iexpr) : res (list (axis T)) :=
-  match e with EList l => getitem_list p l | _ => getitem_expr strict p e end.
+Definition getitem (p : list (axis T)) (e : iexpr) : res (list (axis T)) :=
+  match e with EList l => getitem_list p l | _ => getitem_expr p e end.
 
 (* ---- insert / append (RectGrid.insert + IntervalProd.insert, recursion over the parts) ---- *)
 Fixpoint insert_parts (fuel : nat) (p : list (axis T)) (index : Z) (parts : list (list (axis T)))
@@ -353,16 +351,16 @@ Definition squeeze (p : list (axis T)) (s : axsel) : res (list (axis T)) :=
 
 (* ---- byaxis ---- *)
 (* slc = zeros(ndim, object); slc[indices] = slice(None); part[tuple(slc)].squeeze(where(slc == 0)) *)
-Definition byaxis_sel (strict : bool) (p : list (axis T)) (sel : list Z) : res (list (axis T)) :=
+Definition byaxis_sel (p : list (axis T)) (sel : list Z) : res (list (axis T)) :=
   let nd := length p in
   let slc := map (fun i => if zmem (Z.of_nat i) sel then full_slice else IInt 0) (seq 0 nd) in
   let sq := filter (fun i => negb (zmem i sel)) (map Z.of_nat (seq 0 nd)) in
-  bind (getitem_expr strict p (ETuple slc)) (fun q => squeeze q (AxList sq)).
-Definition byaxis1 (strict : bool) (p : list (axis T)) (s : axsel) : res (list (axis T)) :=
-  bind (axsel_range (zlen p) s) (byaxis_sel strict p).
+  bind (getitem_expr p (ETuple slc)) (fun q => squeeze q (AxList sq)).
+Definition byaxis1 (p : list (axis T)) (s : axsel) : res (list (axis T)) :=
+  bind (axsel_range (zlen p) s) (byaxis_sel p).
 (* sequence: parts = [byaxis[i] for i in indices]; parts[0].append( *parts[1:] ) *)
-Definition byaxis_seq (strict : bool) (p : list (axis T)) (l : list Z) : res (list (axis T)) :=
-  bind (mapM (fun i => byaxis1 strict p (AxInt i)) l) (fun parts =>
+Definition byaxis_seq (p : list (axis T)) (l : list Z) : res (list (axis T)) :=
+  bind (mapM (fun i => byaxis1 p (AxInt i)) l) (fun parts =>
     match parts with
     | [] => Ok []
     | q :: rest => append q rest
